@@ -347,6 +347,7 @@ func VerifC12Race(h *verifh.H) {
 	strategy := &deduplicationStrategy{counts: make(map[string]int), changeBuffer: make(map[[24]byte]byte), flushAfter: thr}
 	worker := NewCompactor(hub.Store, hub.Dsm, hub.Env.Logger)
 	var cerr, werr error
+	h.SymbolicLocks() // also preempt before every lock acquisition (the flush takes the dataset lock)
 	h.SymbolicSched(h.Param("preemptions", 2))
 	h.Go(func() { cerr = worker.compact("d", strategy) })
 	h.Go(func() { werr = ds.StoreEntities([]*server.Entity{vMk("ns0:e1", w)}) })
